@@ -363,8 +363,10 @@ func (pw *predWorld) ethCall(args []byte) *outcome {
 	return fromResponse(&out)
 }
 
-func (pw *predWorld) estimate(args []byte) (uint64, string) {
-	req := &evmtypes.EthCallRequest{Args: args, GasCap: gasCap}
+func (pw *predWorld) estimate(args []byte) (uint64, string) { return pw.estimateCap(args, gasCap) }
+
+func (pw *predWorld) estimateCap(args []byte, cap uint64) (uint64, string) {
+	req := &evmtypes.EthCallRequest{Args: args, GasCap: cap}
 	res, err := pw.c.App.Query(context.Background(), &abci.RequestQuery{Path: "/ethermint.evm.v1.Query/EstimateGas", Data: mustMarshal(req)})
 	if err != nil {
 		return 0, err.Error()
@@ -522,6 +524,38 @@ func (pw *predWorld) predict(i int) {
 		}
 		if got2.class() != amp2.class() {
 			run.Count("estimates_outcome_differs_from_ample_gas_call", 1) // non-monotonic in gas: not demanded by the statement
+		}
+	}
+
+	// --- the same request with an allowance that is too small: the caller names a large gas limit, the node's cap is
+	// about half of what the call needs. Either no estimate is returned, or the returned one must work as a gas limit.
+	if est >= 44000 && got2.CoreErr == "" && got2.VmErr == "" {
+		pc3 := pc2
+		tight := est / 2
+		if tight < 21000 {
+			tight = 21000
+		}
+		e3, e3err := pw.estimateCap(pc3.args(gasCap), tight)
+		run.Eval(1)
+		if e3err != "" {
+			run.Count("estimates_refused_under_a_tight_cap", 1)
+			run.Nontrivial(fmt.Sprintf("estimate-tight-cap|refused|%s", pc3.Target))
+			return
+		}
+		run.Count("estimates_returned_under_a_tight_cap", 1)
+		got3, res3 := pw.deliver(pc3, e3)
+		run.Nontrivial(fmt.Sprintf("estimate-tight-cap|returned|%s|%s", pc3.Target, got3.class()))
+		if got3.CoreErr != "" || got3.VmErr != "" {
+			m := map[string]any{"case": pc3.describe(), "gas_named_by_caller": gasCap, "gas_cap_of_the_request": tight, "estimate_with_ample_cap": est, "estimate_returned": e3,
+				"delivered_with_returned_estimate": got3.brief(), "height": pw.c.Height, "world": pw.label, "index": i}
+			if res3 != nil {
+				m["tx_code"], m["tx_log"] = res3.Code, trunc(res3.Log, 300)
+			}
+			sig := "estimate-insufficient:under-tight-cap:" + got3.class()
+			if strings.Contains(got3.VmErr, "out of gas") || strings.Contains(got3.CoreErr, "gas") {
+				sig = "estimate-insufficient:under-tight-cap:out-of-gas"
+			}
+			run.Violation(sig, label, m)
 		}
 	}
 }
